@@ -206,7 +206,16 @@ fn main() {
     if let Some(f) = sys_family(&fam) {
         let w = ctx.world();
         let mut eng = scen::Engine::new(cast::Cast::new(w));
-        let done = f(&mut eng, &mut rng, thorough, &mut ctx.out);
+        // a family that stops at a panic of its own (an expectation every later step depends on failed, e.g. an object that no longer
+        // deserialises from its own serialisation) still reports: the oracle failures recorded up to that point are in the summary
+        let done = match std::panic::catch_unwind(std::panic::AssertUnwindSafe(|| f(&mut eng, &mut rng, thorough, &mut ctx.out))) {
+            Ok(d) => d,
+            Err(_) => {
+                let at = LAST_PANIC.lock().map(|g| g.clone()).unwrap_or_default();
+                ctx.out.oracle_fail("the scenario family stopped at a panic of the harness: a step every later step depends on failed (see the oracle failures recorded before it)", &json!({"fam": fam, "sig": "", "at": at}), &Value::Null);
+                vec![]
+            }
+        };
         for (case, imp) in done {
             ctx.out.write_case(case, imp);
         }
